@@ -95,7 +95,7 @@ def check_basic(ctx, nas, names, get, tag, detail):
     return vals
 
 
-def check_gradients(ctx, nas, cost_fn, tag, detail, fd_elements=12, rng=None):
+def check_gradients(ctx, nas, cost_fn, tag, detail, fd_elements=12, rng=None, param_info=None):
     """autograd vs finite differences on the architectural parameters; nothing to the weights"""
     nas_params = [p for p in nas.nas_parameters() if p.requires_grad]
     net_params = [p for p in nas.net_parameters() if p.requires_grad]
@@ -140,7 +140,8 @@ def check_gradients(ctx, nas, cost_fn, tag, detail, fd_elements=12, rng=None):
         if raises and gv == 0.0:
             ctx.violation('gradients', dict(detail, sig=f'{tag}:zero-gradient-where-cost-rises',
                                             param_index=pi, element=ei, value=old,
-                                            cost=base, cost_plus=c2))
+                                            cost=base, cost_plus=c2,
+                                            param_owner=param_info(p) if param_info else None))
             break
     return any_nonzero
 
@@ -310,6 +311,24 @@ def run_mps(case, ctx, odimo=False):
             ctx.skip(type(e).__name__ + ': ' + str(e)[:80])
         return
     mpslib.assign_coefficients(nas, rng)
+    if not odimo and case['mode'] == 'channel0' and (case['seed'] // 3) % 2 == 0:
+        # a hidden layer pruned away completely (every channel selects 0 bit, saturated so that the
+        # effective width is exactly zero in train mode, too): cost and gradients stay finite
+        cands = [(q, names_) for kind, names_, q in mpslib.unique_qtz(nas)
+                 if kind == 'w' and q.alpha.dim() == 2 and 0 in [int(p) for p in q.precision.tolist()]]
+        # (every layer type has its own copy of the cost code: hidden Linear layers are preferred
+        # half of the time, they are rarer than convolutions in the grammar)
+        lin = [c for c in cands if any(n.startswith(('fc', 'lin')) for n in c[1])]
+        if lin and rng.random() < 0.6:
+            cands = lin
+        if cands:
+            q = rng.choice(cands)[0]
+            zero_row = [int(p) for p in q.precision.tolist()].index(0)
+            with torch.no_grad():
+                q.alpha.data.copy_(-50.0 + 0.1 * torch.rand(q.alpha.shape))
+                q.alpha.data[zero_row] = 50.0
+            ctx.cls('mps:hidden-layer-fully-pruned')
+            detail['fully_pruned_layer'] = True
     x = mpslib.in_range_inputs(prog, case['seed'], 2)
 
     def get(nm):
@@ -344,7 +363,21 @@ def run_mps(case, ctx, odimo=False):
     with torch.no_grad():
         for p in nas.parameters():
             p.data.copy_(saved[id(p)])
-    nontriv = check_gradients(ctx, nas, fresh_cost, tag, detail, fd_elements=8, rng=rng)
+    def param_info(p):
+        # which layers own this coefficient tensor, and how many effective input features they see
+        # (mechanism witness for the known finding mps-consumer-cost-detached-from-producer)
+        out = []
+        for lname, layer in mpslib.mps_layers(nas):
+            q = getattr(layer, 'w_mps_quantizer', None)
+            if q is not None and getattr(q, 'alpha', None) is p:
+                try:
+                    fin = float(layer.input_features_calculator.features)
+                except Exception:
+                    fin = None
+                out.append({'layer': lname, 'effective_input_features': fin})
+        return out
+    nontriv = check_gradients(ctx, nas, fresh_cost, tag, detail, fd_elements=8, rng=rng,
+                              param_info=param_info)
     ctx.cls(tag + ':' + str(names[0]))
     if nontriv:
         ctx.nontriv((tag, case['prog_seed'], names[0], case.get('train')))
